@@ -17,6 +17,8 @@
    S<US>line<US>line...         -> the first loop of `InpFile.read` on a whole file (lines separated by the unit separator
                                    U+001F): `ok|err|end` then, per stored line in file order, <RS>section<US>line (RS = U+0002),
                                    then <RS>#top<US>number of comment lines before the first header
+   M <w0> <w1|-> <h:H:M:S | m:H:M | d:p/q>  -> `<options.time attribute> <seconds>`: what `_read_times` does with the line
+   U <h> <m> <s> <AM|PM>        -> seconds by `_clock_time_to_sec` (START CLOCKTIME), `none` when it raises
    anything else                -> bad -/
 import WntrModel.Model.InpText
 import WntrModel.Gen.SchemaInp
@@ -133,6 +135,21 @@ def handle (line : String) : String :=
       | some ms => showRat (Wntr.InpFormat.sigValue ms)
       | none => "none"
     | _, _ => "bad"
+  | ["M", w0, w1, v] =>
+    let tv : Option Wntr.InpTimes.TimeVal := match v.splitOn ":" with
+      | ["h", h, m, x] => do some (.hms (← h.toInt?) (← m.toInt?) (← x.toInt?))
+      | ["m", h, m] => do some (.hm (← h.toInt?) (← m.toInt?))
+      | ["d", x] => (parseRat x).map .dec
+      | _ => none
+    match tv with
+    | some tv => s!"{Wntr.InpTimes.timesField w0 (if w1 == "-" then "" else w1)} {Wntr.InpTimes.parseTimeVal tv}"
+    | none => "bad"
+  | ["U", h, m, x, ap] =>
+    match h.toInt?, m.toInt?, x.toInt? with
+    | some h, some m, some x => match clockTimeToSec h m x (ap == "PM") with
+      | some t => toString t
+      | none => "none"
+    | _, _, _ => "bad"
   | "K" :: ws =>
     match ws.mapM parseTok with
     | some toks => match parseAtom toks with
